@@ -114,7 +114,7 @@ def run_case(part, case, prange=None):
                     c["pattern"] = list(pattern)
                     part.violation(key + ":raises-" + type(e).__name__, c, {"exception": repr(e)[:300]})
     if "patterns" in case:
-        part.add("scale", (case["kind"], tuple(case["shape"]), str(case["ugp"])))
+        part.add("scale", (case["kind"], tuple(case["shape"]) if "shape" in case else ("graph", case["n"]), str(case["ugp"])))
     else:
         part.add("graphs", (n, tuple(edges)))
 
@@ -166,6 +166,14 @@ def scale_cases(tier):
             for ugp in ((False, True) if kind == "cycle" else (True,)):
                 out.append({"kind": kind, "shape": [h, w], "ugp": ugp, "cfg": False, "patterns": pats})
         out.append({"kind": "cycle", "shape": [h, w], "ugp": "default", "cfg": False, "patterns": pats, "entry": "single_loop"})
+    if tier != "quick":
+        # edge ids beyond 65535 (a 65540-edge path followed by a triangle), native route only: ~1.5 min per case
+        n = 65541
+        edges = [(i, i + 1) for i in range(n - 1)] + [(n - 1, n), (n, n + 1), (n + 1, n - 1)]
+        m = len(edges)
+        pats = [[k >= m - 3 for k in range(m)], [k in (65537, 65538) for k in range(m)], [k in (65537, 65539) for k in range(m)]]
+        for kind in ("cycle", "path"):
+            out.append({"kind": kind, "n": n + 2, "edges": edges, "ugp": True, "cfg": False, "array": True, "patterns": pats, "no_force_check": True})
     # long winding loops of mid-sized frames: the longest simple cycles and the longest self-crossing closed strands (which
     # a simple-cycle constraint must refuse) from a complete scan of the cycle space (tools/gen_weaves.py stores the inputs only)
     import json
@@ -293,6 +301,15 @@ def worker(shard, part):
         run_case(part, case, None if plo is None else (plo, phi))
     if lo < len(_CASES) and (lo // 5) % 50 == 0:
         part.sample(_CASES[lo])
+
+
+def _describe(shard):
+    lo, hi, plo, phi = shard
+    c = _CASES[lo]
+    return "%d case(s) %s %s" % (hi - lo, (plo, phi), {k: (v if not isinstance(v, (list, tuple)) or len(v) < 6 else "[%d]" % len(v)) for k, v in c.items()})
+
+
+worker.describe = _describe
 
 
 _BRUTE = [300]
